@@ -1090,6 +1090,22 @@ class AttrParser(BaseParser):
         return res
 
     def _parse_builtin_densearray_attr(self) -> DenseArrayBase | None:
+        pos = self.pos
+        try:
+            return self._parse_builtin_densearray_attr_body()
+        except (
+            ValueError,
+            OverflowError,
+            ZeroDivisionError,
+            NotImplementedError,
+        ) as e:
+            # The element type cannot store the values (unsupported bitwidth,
+            # value out of range, ...)
+            self.raise_error(
+                f"Invalid dense array: {str(e) or e.__class__.__name__}", pos, self.pos
+            )
+
+    def _parse_builtin_densearray_attr_body(self) -> DenseArrayBase | None:
         self.parse_characters("<", " in dense array")
         pos = self.pos
         element_type = self.parse_attribute()
